@@ -5,7 +5,7 @@
 use crate::observe::*;
 use crate::report::*;
 use pdf::content::*;
-use pdf::object::{NoResolve, RenderingIntent};
+use pdf::object::{NoResolve, RenderingIntent, Stream};
 use pdf::primitive::{Dictionary, Name, PdfString, Primitive};
 use serde_json::{json, Value};
 
@@ -247,6 +247,19 @@ fn norm(s: String) -> String {
 
 fn table_case(rep: &mut Report, ci: usize, case: &Value, all: bool) {
     let kw = case["kw"].as_str().unwrap();
+    if kw == "Tr" {
+        // the operand of Tr is one of the eight rendering modes of Table 106: each parses to the mode with that number
+        for n in 0..8u8 {
+            rep.execs += 1;
+            let text = format!("BT {} Tr ET", n);
+            let got = guarded(|| parse_ops(text.as_bytes(), &NoResolve));
+            let ok = match &got { Outcome::Done(Ok(ops)) => ops.len() == 3 && matches!(ops[1], Op::TextRenderMode { mode } if mode as u8 == n), _ => false };
+            if !ok {
+                let obs = match got { Outcome::Done(Ok(ops)) => json!(ops.iter().map(|o| format!("{:?}", o)).collect::<Vec<_>>()), Outcome::Done(Err(e)) => err_json(&e), Outcome::Panic(p) => panic_json(&p) };
+                rep.fail(&format!("table:Tr:mode{}", n), json!({"case_index": ci, "case": case, "text": text, "observed": obs}));
+            }
+        }
+    }
     let kinds: Vec<&str> = case["ar"].as_array().unwrap().iter().map(|k| k.as_str().unwrap()).collect();
     let nvar = if all { 12 } else { 4 };
     for variant in 0..nvar {
@@ -276,6 +289,24 @@ fn table_case(rep: &mut Report, ci: usize, case: &Value, all: bool) {
             }
             Outcome::Done(Err(e)) => rep.fail(&format!("table:{}:err", kw), json!({"case_index": ci, "case": case, "text": text, "observed": err_json(&e)})),
             Outcome::Panic(p) => rep.fail(&format!("table:{}:panic", kw), json!({"case_index": ci, "case": case, "text": text, "observed": panic_json(&p)})),
+        }
+        // the same text as the content of a page that is an array of two streams, divided right before and right behind the
+        // operator (ISO 32000-1 7.8.2: the division may occur at any boundary between lexical tokens, and the streams read
+        // as one): no white-space is left at the division, the tokens must still not run together
+        if variant == 0 {
+            let kpos = text.rfind(&format!("{} 7 8 l", kw)).unwrap();
+            for (a, b) in [(text[..kpos].trim_end(), &text[kpos..]), (&text[..kpos + kw.len()], text[kpos + kw.len()..].trim_start())] {
+                rep.execs += 1;
+                let content = Content { parts: vec![Stream::new((), a.as_bytes().to_vec()), Stream::new((), b.as_bytes().to_vec())] };
+                match guarded(|| content.operations(&NoResolve)) {
+                    Outcome::Done(Ok(back)) => {
+                        let got: Vec<String> = dbg(&back).into_iter().map(norm).collect();
+                        if got != want { rep.fail(&format!("table:{}:two-parts", kw), json!({"case_index": ci, "case": case, "parts": [a, b], "expected": want, "observed": got})); }
+                    }
+                    Outcome::Done(Err(e)) => rep.fail(&format!("table:{}:two-parts:err", kw), json!({"case_index": ci, "case": case, "parts": [a, b], "observed": err_json(&e)})),
+                    Outcome::Panic(p) => rep.fail(&format!("table:{}:two-parts:panic", kw), json!({"case_index": ci, "case": case, "parts": [a, b], "observed": panic_json(&p)})),
+                }
+            }
         }
     }
 }
